@@ -175,6 +175,8 @@ func runC01(p *P, r *R) {
 	}
 	c01HeaderWriters(p, r, fr)
 	abaRule(p, r, "R01.9")
+	// R01.10 nobody but the holder touches a slot header: a chain walker does not use a slice's header after it gave the slice back
+	linkReadBeforeRecycle(p, r, "R01.10")
 	// R01.8 the link is published in the right order: next offset first, hasNext flag afterwards
 	if ln := p.fn("(bufferHeader).linkNext"); ln != nil {
 		nextO, _ := p.pkgConstInt("nextBufferOffset")
